@@ -68,7 +68,7 @@ package ipk
 //@     invariant [C03] index-in-range: 0 <= iter && iter <= len(info.Contents)
 //@     invariant [C06] no-failure-so-far: !ghostFlag("failed")
 //@     invariant [C07] no-clock-so-far: implies(!old(info.MTime.IsZero()), !ghostFlag("clockRead"))
-//@     invariant [C07 C11 C12] plan-still-fresh: !inlined() || nfpm.SpecPlanOK(info.Contents, !old(info.MTime.IsZero()))
+//@     invariant [C01 C04 C05 C07 C11 C12] plan-still-fresh: !inlined() || nfpm.SpecPlanOK(info.Contents, !old(info.MTime.IsZero()))
 //@     invariant [C01 C03 C08] plan-entries-complete: inlined() || files.SpecPlanInputOK(info.Contents, !old(info.MTime.IsZero()))
 //
 //@ spec func confLine(c *files.Content) string {
